@@ -1070,7 +1070,9 @@ impl CollectUnicodes for Cmap4<'_> {
                 }
             } else {
                 for cp in start..=end {
-                    let index = range_offset / 2 + (cp - start) + i as u32 - seg_count as u32;
+                    // an index before the glyph id array wraps and fails the bounds check below
+                    let index =
+                        (range_offset / 2 + (cp - start) + i as u32).wrapping_sub(seg_count as u32);
                     if index as usize >= glyph_id_array.len() {
                         out.remove_range(cp..=end);
                         break;
